@@ -2202,12 +2202,24 @@ static int
 HIextend_file(filerec_t *file_rec)
 {
     uint8 temp      = 0;
+    long  phys_len;
     int   ret_value = SUCCEED;
 
-    if (HPseek(file_rec, file_rec->f_end_off) == FAIL)
+    /* find out how long the file really is */
+    if (HI_SEEKEND(file_rec->file) == FAIL)
         HGOTO_ERROR(DFE_SEEKERROR, FAIL);
-    if (HP_write(file_rec, &temp, 1) == FAIL)
-        HGOTO_ERROR(DFE_WRITEERROR, FAIL);
+    phys_len          = (long)HI_TELL(file_rec->file);
+    file_rec->last_op = H4_OP_UNKNOWN; /* the file position is no longer where HPseek believes */
+    if (phys_len < 0)
+        HGOTO_ERROR(DFE_SEEKERROR, FAIL);
+
+    /* mark the last reserved byte, unless the file already reaches it */
+    if (phys_len < (long)file_rec->f_end_off) {
+        if (HPseek(file_rec, file_rec->f_end_off - 1) == FAIL)
+            HGOTO_ERROR(DFE_SEEKERROR, FAIL);
+        if (HP_write(file_rec, &temp, 1) == FAIL)
+            HGOTO_ERROR(DFE_WRITEERROR, FAIL);
+    }
 
 done:
     return ret_value;
